@@ -27,6 +27,22 @@ CHECKS = {
          "Seeded search over interleavings (PCT and sticky random walk over ~300 yield points per commit) of 2-3 writers with disjoint key sets on small-slot seeded stores, fault-free, fair, maxTime 15 simulated minutes: every Commit must return nil and warm/cold dumps must equal the union. Bounded liveness is judged only in this fault-free configuration.",
          "Trusted: simulator, KV model. One OS process; transactions are goroutines of one simulated process sharing the L1/L2 caches (as in production standalone mode).",
          "7/C04"),
+ "C02": (EXPL, "deterministic simulation: seeded interleavings of 2-4 transactions; recorded history checked for serializability with porcupine against a KV model",
+         "Seeded search over interleavings of 2-4 concurrent transactions (writers, ForReading readers, rollbacks) on overlapping keys; the history of committed transactions (every observed value/found/count, plus the final warm and cold dump) must be explained by some serial order (porcupine, one operation per transaction). Violations are classed by the weakest relaxation that explains them (count-only, absence-results-only, positive reads/writes).",
+         "Trusted: simulator, the sequential KV model used as porcupine step function, porcupine v1.3.0. Histories <= 4 transactions x 5 calls; Unknown (timeout) is inconclusive, never reported. Separate OS processes / Redis mode not covered (single simulated process, in-memory L2).",
+         "7/C02"),
+ "C03": (EXPL, "deterministic simulation: targeted pause schedules + fault-failed commits; unique-token value attribution oracle",
+         "Seeded and targeted schedules (writer paused at a chosen step of its body/commit while a reader runs to completion), rollbacks and injected commit failures; every value read is attributed to its writer by a unique token and flagged iff the writer never commits or had not invoked Commit yet; afterwards no write of a non-committed transaction may be visible.",
+         "Trusted: simulator, token attribution (values are unique per run). Reads during an in-flight commit that eventually succeeds are not judged. Count() visibility is judged by C02/C06, not here.",
+         "7/C03"),
+ "C05": (EXPL, "deterministic simulation: seeded interleavings of concurrent Add/AddIfNotExist/Upsert/UpdateKey on overlapping keys; duplicate-key scan oracle",
+         "Seeded interleavings of 2-4 transactions inserting/upserting the same keys of unique stores, including first commits into an empty store; final warm and cold ordered scans must contain no two equal adjacent keys.",
+         "Trusted: simulator, the scan through sop's own read path.",
+         "7/C05"),
+ "C06": (EXPL, "deterministic simulation: concurrent add/remove histories with rollbacks and injected commit failures; Count() vs scan oracle",
+         "Seeded concurrent add/remove-heavy histories with commits, rollbacks and 0-2 injected I/O/lock faults; at quiescence Count() of a fresh warm and a fresh cold transaction must equal the number of items the ordered scan returns, per store.",
+         "Trusted: simulator. No recovery/maintenance pass is given before the comparison (maintenance is unreachable through Begin, see DESIGN.md section 9).",
+         "7/C06"),
 }
 
 NOT_APPLICABLE = {
